@@ -368,7 +368,41 @@ def finish(ctx, wall):
     return 1 if ctx.violations else 0
 
 
-ENGINES = {"hist": run_hist_engine}
+def run_alloc_engine(ctx, spec):
+    """C11 (a): the real findFreeIndex against coq/Alloc.v find_free on generated fill lists"""
+    n = spec["quick"] if ctx.tier == "quick" else spec["thorough"]
+    out = os.path.join(CACHE, "run", f"{ctx.pid}_alloc")
+    if os.path.exists(out):
+        shutil.rmtree(out)
+    t0 = time.time()
+    vlib.sh([os.path.join(CACHE, "harness"), "alloc", "--seed", str(ctx.seed), "--n", str(n), "--out", out], timeout=1200)
+    s = json.load(open(os.path.join(out, "summary.json")))
+    bad = []
+    for sh_ in s["shards"]:
+        p = subprocess.run(["timeout", "1200", "coqc", "-Q", COQ, "ColumnV", sh_], cwd=out, stdout=subprocess.PIPE, stderr=subprocess.STDOUT, text=True)
+        m = re.search(r"M\s*=\s*\[(.*?)\]\s*:\s*list", p.stdout, re.S)
+        if p.returncode != 0 or not m:
+            ctx.violation("correspondence", "Alloc.v could not be evaluated on the recorded allocator cases: " + p.stdout[-1500:], found_input=False)
+            continue
+        bad += [(sh_, int(x)) for x in re.findall(r"\d+", m.group(1))]
+    ctx.checker_cmds.append(f".cache/harness alloc --seed {ctx.seed} --n {n}; coqc <shards>   # find_free vs findFreeIndex")
+    cov = ctx.coverage
+    cov["evaluations"] += s["cases"]
+    cov["distinct_nontrivial"] += s["cases"] - s["shapes"].get("empty", 0)
+    cov.setdefault("engines", []).append({"engine": "alloc", "cases": s["cases"], "shapes": s["shapes"], "model_disagreements": len(bad),
+                                          "occupied_results": len(s.get("occupied_results") or []), "wall_s": round(time.time() - t0, 1)})
+    cov["samples"] += [{"engine": "alloc", "case(words,count,result)": x} for x in (s.get("samples") or [])[:2]]
+    for o in (s.get("occupied_results") or [])[:3]:
+        ctx.violation("alloc", "findFreeIndex returned an occupied offset: " + o, data={"engine": "alloc", "seed": ctx.seed})
+    if bad and not s.get("occupied_results"):
+        # a different but still free choice is a harmless rewrite of the allocator: the model of
+        # find_free no longer corresponds, the property itself was checked directly above
+        ctx.notes.append(f"allocator model disagrees on {len(bad)} cases although every returned offset was free: findFreeIndex changed its choice; Alloc.v must be brought up to date")
+        ctx.violation("correspondence", f"find_free (Alloc.v) and findFreeIndex disagree on {len(bad)} generated fill lists (first: {bad[0]}); every offset returned by the code was free on these inputs",
+                      found_input=False)
+
+
+ENGINES = {"hist": run_hist_engine, "alloc": run_alloc_engine}
 
 H = lambda profile, q, t, **kw: dict(engine="hist", profile=profile, quick=q, thorough=t, **kw)
 
@@ -383,10 +417,12 @@ PROPS = {
                 rule="histories with filter chains and terminals; non-trivial = a chain operator and a terminal in the history"),
     "C07": dict(engines=[H("restore", 60, 800)],
                 rule="histories with snapshot->restore->continue cycles; non-trivial = a restore after >=2 commits"),
-    "C11": dict(engines=[H("alloc", 60, 800)],
+    "C11": dict(engines=[H("alloc", 60, 800), dict(engine="alloc", quick=300, thorough=6000)],
                 rule="insert/delete heavy histories; non-trivial = >=3 inserts with a delete or offset reuse"),
     "C12": dict(engines=[H("keys", 70, 900)],
                 rule="keyed histories over a 6-key alphabet; non-trivial = >=3 key operations"),
+    "C15": dict(engines=[H("mix", 60, 800), H("atomic", 30, 300)],
+                rule="histories with a recording logger: emitted commits (decoded per block) compared with the model's stream, ids checked to be distinct, non-zero and increasing per block; non-trivial = >=2 emitted commits with an abort or a multi-block transaction"),
     "C16": dict(engines=[H("mix", 60, 800)],
                 rule="histories with a sorted index; non-trivial = an Ascend in the history"),
     "C19": dict(engines=[H("mix", 60, 800)],
